@@ -11,6 +11,14 @@ claimed={
          "ideal AEAD INT-CTXT contract; one adversarial frame per step (induction over steps); <= 3 honest neighbours as replay candidates"),
  "C12": ("Real sender in any keyed state vs an independent decoder written from the format text (nonce, AAD, IV-on-first, header-as-AAD), and spec-built frames vs the real receivers; counter exhaustion; RNG-fresh IV and zeroed counters on key install; counter continuity across crypto toggles.", "5.C12",
          "AES-GCM idealised: Open succeeds iff key/nonce/AAD/ciphertext equal a sealed tuple; payload <= 1 MiB"),
+ "C04": ("Stream-layer lemmas: every cleartext send/receive before key installation feeds exactly header||payload to the digest of its direction (recording SHA-256 in the harness), key installation freezes both digests (zero block for an unused direction) and later traffic never changes them, and two endpoints whose frozen digests differ in any byte reject each other's first protected frame; composition argument in DESIGN 5.C04.", "5.C04",
+         "hash and AEAD idealised (collision resistance / INT-CTXT as axioms); whole-handshake relay experiments are outside (lemma-level decision)"),
+ "C13": ("Typed readers of the message layer (GetChar/GetInt*/GetBytes/GetRemainingBytes/GetString/GetStringWithMaxSize/SkipString) over 2-3 adversarial frames of symbolic length and content in both modes: no panic (bounds, nil, make, division all checked), allocations <= bytes delivered + 64, byte-wise loops end within input size + 4 iterations (unwinding assertion), caps honoured.", "5.C13",
+         "frames <= 12 bytes each (small-input progress variant); handshake-level and text parsers are being added (not yet covered)"),
+ "C14": ("Put*/Get* of every integer width, char and NUL-free strings <= 6 bytes against an independently written big-endian reference layout, and decode of the emitted bytes re-cut at every symbolic 2-frame split; NUL truncation on send.", "5.C14",
+         "strings <= 6 bytes whose first byte is not the in-band NULL marker 0xAD (never the first byte of valid UTF-8); doubles not yet covered"),
+ "C15": ("Export from any exportable stream state and import around another connection: all fields the send/receive paths read agree, an untouched peer exchanges protected frames with the imported stream both ways and the result is exportable again (inductive over hand-offs); export refused exactly on the nine documented conditions; truncated / bad-magic / wrong-version blobs rejected.", "5.C15",
+         "ideal AEAD; peer address <= 8 bytes; payloads <= 4 KiB in the continuation step"),
 }
 checks=[]
 for i in ids:
